@@ -19,7 +19,7 @@ nb=$(wc -l < /tmp/mut/base_$name.txt)
 echo "SEED $name: baseline_pass=$nb lost_with_change=$lost demo_clean_exit=$d0 demo_mutated_exit=$d1"
 if [ "$lost" = "0" ] && [ "$d0" = "0" ] && [ "$d1" != "0" ]; then
   mkdir -p /verif/seeded/$name
-  git diff > /verif/seeded/$name/patch.diff
+  git diff HEAD > /verif/seeded/$name/patch.diff
   cp "$src/demo.py" /verif/seeded/$name/demo.py
   cp "$src/notes.md" /verif/seeded/$name/notes.md 2>/dev/null
   printf '{"property": "%s", "name": "%s", "verified": {"baseline_tests_passing": %s, "tests_lost_with_change": 0, "demo_exit_clean": %s, "demo_exit_with_change": %s}, "verified_by": "tools/verify_seed.sh in a scratch worktree of /repo HEAD (removed afterwards)"}\n' "$prop" "$name" "$nb" "$d0" "$d1" > /verif/seeded/$name/meta.json
